@@ -1020,6 +1020,7 @@ type vOp struct {
 	Order   []string   `json:"order,omitempty"`
 	Note    string     `json:"note,omitempty"`
 	Case    string     `json:"case,omitempty"`
+	Mode    string     `json:"mode,omitempty"`
 }
 
 func (s *vSim) rangesRefs(rs [][2]int) []hash.SHA256Hash {
@@ -1172,6 +1173,11 @@ func (s *vSim) exec(op *vOp) {
 		} else {
 			line = s.sentLine() + " " + n.stLine()
 		}
+		if c != nil {
+			if q, _, _, _, ok := gossip.VerifQueue(n.p.gManager, c.peer); ok {
+				line += fmt.Sprintf(" q=%d", len(q))
+			}
+		}
 	case "deliver":
 		if op.M < 0 || op.M >= len(s.sent) {
 			line = "no-message"
@@ -1215,6 +1221,28 @@ func (s *vSim) exec(op *vOp) {
 		}
 		s.drainAsync()
 		line = fmt.Sprintf("ret=%s %s %s", vClassify(err), s.sentLine(), n.stLine())
+	case "conn":
+		// down/up: the connection object flips (the state callback has not run yet); disconnect/connect: the callback runs
+		n := s.nodes[op.N]
+		c := n.conns[op.Peer]
+		if c == nil {
+			line = "no-connection"
+			break
+		}
+		switch op.Mode {
+		case "down":
+			c.connected = false
+		case "up":
+			c.connected = true
+		case "disconnect":
+			c.connected = false
+			n.p.connectionStateCallback(c.peer, transport.StateDisconnected, n.p)
+		case "connect":
+			c.connected = true
+			n.p.connectionStateCallback(c.peer, transport.StateConnected, n.p)
+		}
+		_, _, _, _, hasQ := gossip.VerifQueue(n.p.gManager, c.peer)
+		line = fmt.Sprintf("conn connected=%v queue=%v", c.connected, hasQ)
 	case "observe":
 		line = s.observe()
 	default:
